@@ -3432,9 +3432,12 @@ class HasTraits(CHasTraits, metaclass=MetaHasTraits):
             delegate.
         """
         if pattern[-1] == "*":
+            # A class without a '__prefix__' attribute delegates to the
+            # same-named attribute (this is what the C-level name mapping
+            # does for the attribute it reads and writes).
             pattern = "%s%s%s" % (
                 pattern[:-1],
-                self.__class__.__prefix__,
+                getattr(self.__class__, "__prefix__", ""),
                 name,
             )
 
